@@ -48,7 +48,7 @@ func VerifC09Open() {
 		st.Blob = blob
 	case 1: // one byte altered (any position, any non-zero difference)
 		b := append([]byte{}, blob...)
-		i := symx.Choose("flipAt", len(b))
+		i := symx.Choose("flipAt", len(b)) % len(b) // (natively the real CBOR blob may be shorter than the model blob)
 		d := symx.Uint8("flipBy")
 		symx.Assume(d != 0)
 		b[i] ^= d
